@@ -29,6 +29,57 @@ PRINTERS = [r'^ST::buffer<char> _ST_PRIVATE::mini_format_int_s<([\w ]+)>\(int, b
             r'^ST::string_stream::operator<<\((int|long|long long)\)$']
 
 
+def _through_casts(f, v, insts):
+    """The parameter index an operand is, looking through width conversions; None otherwise."""
+    for _ in range(6):
+        if not (isinstance(v, list) and v and v[0] == 'v'):
+            return None
+        if v[1] < len(f.params):
+            return v[1]
+        i = insts.get(v[1])
+        if i is None or i.op not in ('zext', 'sext', 'trunc') or not i.a:
+            return None
+        v = i.a[0]
+    return None
+
+
+_GEN_CACHE = {}
+
+
+def digit_generator(m, name):
+    """A library function is a digit generator when it holds the divide-by-radix countdown itself: a loop-carried value X that starts as
+    an integer parameter `value`, with X % r and X / r computed for one parameter r, and a one-unit store.  Returns
+    (index of value, index of the radix, width of value) or None.  Recognised by the shape of the loop, not by name, so that a
+    generator extracted into a helper of any name is one (uint_formatter<U>::format is the library's own instance)."""
+    key = (id(m), name)
+    if key in _GEN_CACHE:
+        return _GEN_CACHE[key]
+    r = None
+    if m.has(name):
+        f = m.func(name)
+        insts = dict((i.id, i) for i in f.all_insts())
+        divs = [i for i in insts.values() if i.op == 'udiv' and len(i.a) == 2]
+        rems = [i for i in insts.values() if i.op == 'urem' and len(i.a) == 2]
+        bytestore = any(i.op == 'store' and i.d.get('size') == 1 for i in insts.values())
+        for dv in divs:
+            x = dv.a[0]
+            if not (isinstance(x, list) and x[0] == 'v' and x[1] in insts and insts[x[1]].op == 'phi'):
+                continue
+            rp = _through_casts(f, dv.a[1], insts)
+            if rp is None or not bytestore:
+                continue
+            if not any(rm.a[0] == x and _through_casts(f, rm.a[1], insts) == rp for rm in rems):
+                continue
+            phi = insts[x[1]]
+            srcs = [_through_casts(f, inc[0], insts) for inc in phi.d.get('inc', [])]
+            vp = [k for k in srcs if k is not None and k != rp]
+            if len(vp) == 1 and f.params[vp[0]]['ty'].startswith('i') and f.params[vp[0]]['ty'][1:].isdigit():
+                r = (vp[0], rp, int(f.params[vp[0]]['ty'][1:]))
+                break
+    _GEN_CACHE[key] = r
+    return r
+
+
 class PrintHooks(Hooks):
     max_depth = 8
 
@@ -50,6 +101,23 @@ class PrintHooks(Hooks):
         if re.match(r'^ST::uint_formatter<[\w ]+>::format\(', d):
             st.ev('magnitude', inst, args[1], args[2] if len(args) > 2 else None, d)
             return [(st, None)]
+        gen = digit_generator(self.m, name) if name in I.F.libset else None
+        if gen is not None and isinstance(args[gen[0]], IntV):
+            # a digit generator of another name (the countdown extracted into a helper): the operand it renders is the magnitude
+            st.ev('magnitude', inst, args[gen[0]], args[gen[1]], d)
+            fn = self.m.func(name)
+            for a in args:
+                if isinstance(a, PtrV) and a.obj is not None and not a.off.t and fn.ret and fn.ret.endswith('*'):
+                    # digits are written backwards from this position: what lies in front of it inside the object is the room
+                    st.ev('gen-room', inst, a.off.c, args[gen[0]], a.obj)
+            if fn.ret and fn.ret.endswith('*'):
+                # it returns the position of the first digit: 1..width places in front of some pointer it was given
+                ps = [a for a in args if isinstance(a, PtrV) and a.obj is not None]
+                if len(ps) == 1:
+                    n = I.fresh_int(st, 64, 'ndig', lo=1, hi=gen[2])
+                    return [(st, PtrV(ps[0].obj, ps[0].off - n.lin))]
+                return [(st, I.fresh_for_type(st, inst.ty, 'fmt'))]
+            return [(st, None if inst.ty == 'void' else I.fresh_for_type(st, inst.ty, 'fmt'))]
         if d.startswith('ST::string_stream::append_char('):
             st.ev('emit-char', inst, args[1])
             return [(st, args[0])]
@@ -162,6 +230,15 @@ def printers(run, m, F, E):
                 und.append('%d magnitude calls' % len(mg))
                 continue
             mv = mg[0][2]
+            for e in s2.events:
+                if e[0] == 'gen-room' and isinstance(e[3], IntV) and radix is not None:
+                    # the generator is handed a position inside a buffer of the caller: in radix 2 it writes one unit per bit
+                    mlr = I.as_u(s2, e[3])
+                    env = s2.find_model([mlr, radix.lin], lambda v, room=e[2]: v[1] == 2 and v[0].bit_length() > room)
+                    if env is not None:
+                        problems.append('the digit generator called at line %d writes backwards from offset %d of %s: magnitude %d in radix 2 needs '
+                                        '%d units, %d are in front of that position; witness %s' %
+                                        (e[1].line, e[2], e[4].split('#')[0], eval_in(env, mlr), eval_in(env, mlr).bit_length(), e[2], own.fmt_env(env)))
             neg = s2.is_ge0(-val.lin - 1)
             if neg is None:
                 und.append('path does not decide the sign of the value')
@@ -305,13 +382,14 @@ def digit_loop(run, m, F, E):
                                          chr(0x30 + d0 if d0 < 10 else (0x41 if u0 & 1 else 0x61) + d0 - 10), own.fmt_env(env2)))
             if o.kind == 'backedge':
                 nb += 1
-                b = s2.flags.get('wbegin:' + f.name) or {}
-                e2 = s2.flags.get('wend:' + f.name) or {}
-                wi = max([k for k, e in enumerate(s2.events) if e[0] == 'widen' and e[1] == f.name] or [-1])
+                lf = o.info[0] if o.info else f.name       # the function holding the loop (the formatter itself, or a helper it calls)
+                b = s2.flags.get('wbegin:' + lf) or {}
+                e2 = s2.flags.get('wend:' + lf) or {}
+                wi = max([k for k, e in enumerate(s2.events) if e[0] == 'widen' and e[1] == lf] or [-1])
                 # the digit stored in this iteration: one unit of the buffer, one place in front of the next iteration's
                 # (by position - the loop may keep a pointer into the buffer or an index)
                 digs = [e for e in s2.events[wi + 1:] if e[0] == 'fmt-store' and e[3] == 1]
-                if not digs and o.info and o.info[0] == f.name:
+                if not digs and o.info:
                     continue            # a loop of the function that stores no digit (e.g. one that derives a shift from the radix)
                 if len(digs) != 1:
                     und.append('an iteration stores %d units into the buffer, expected one digit' % len(digs))
@@ -366,7 +444,7 @@ def digit_loop(run, m, F, E):
                         else:
                             und.append('distance to the next digit (%r) not decided' % (d,))
                 # the value: some carried slot of the value's width becomes value / radix, and the body runs only for value != 0
-                cands = [(bv, e2.get(nm)) for nm, bv in b.items() if isinstance(bv, IntV) and isinstance(e2.get(nm), IntV) and bv.bits == bits]
+                cands = [(bv, e2.get(nm)) for nm, bv in b.items() if isinstance(bv, IntV) and isinstance(e2.get(nm), IntV) and bv.bits >= bits]
                 good = None
                 for bv, ev in cands:
                     at = ev.lin.single_atom()
@@ -374,6 +452,8 @@ def digit_loop(run, m, F, E):
                         good = bv
                 if good is None:
                     und.append('no carried value recognised as value := value / radix (carried: %s)' % ', '.join(repr(ev) for bv, ev in cands)[:120])
+                elif good.bits > bits and s2.is_ge0(Lin.const((1 << bits) - 1) - I.as_u(s2, good)) is not True:
+                    und.append('the countdown runs over a %d-bit value; that it stays below 2^%d (at most %d digits) is not established' % (good.bits, bits, bits))
                 elif s2.is_ge0(I.as_u(s2, good) - 1) is not True:
                     env = s2.find_model([I.as_u(s2, good)], lambda v: v[0] == 0)
                     if env is not None:
